@@ -32,6 +32,7 @@ type env struct {
 	rnd     *h.Rand
 	targets []codecx.Target
 	byName  map[string]int
+	sigSeen map[string]int
 }
 
 func (e *env) target(name string) int {
@@ -227,11 +228,18 @@ func (e *env) run(family string, ti int, b []byte) {
 	e.r.Hit("stable")
 }
 
+// fail records an oracle failure; at most three per known signature, so that they cannot crowd out an
+// unclassified one (the result keeps 50 failures).
 func (e *env) fail(c, sig, detail string) {
-	e.r.Fail(trunc(c, 2000), sig, detail)
 	if sig != "" {
 		e.r.Confirm(sig, trunc(c, 200)+": "+trunc(detail, 400))
+		e.sigSeen[sig]++
+		if e.sigSeen[sig] > 3 {
+			e.r.Hit("oracle-fail:" + sig)
+			return
+		}
 	}
+	e.r.Fail(trunc(c, 2000), sig, detail)
 }
 
 func unhex(s string) []byte { return h.UnHex(strings.ReplaceAll(s, " ", "")) }
@@ -359,7 +367,7 @@ func (e *env) directed() {
 }
 
 func (e *env) generated(g *codecx.Gen) {
-	n := e.o.N(2500, 300000)
+	n := e.o.N(2500, 40000)
 	for i := 0; i < n; i++ {
 		ti := e.rnd.Intn(len(e.targets))
 		if e.rnd.Chance(40) {
@@ -380,7 +388,7 @@ func (e *env) generated(g *codecx.Gen) {
 			e.run("mutation", ti, codecx.Mutate(e.rnd, b))
 		}
 	}
-	for i := 0; i < e.o.N(1500, 200000); i++ {
+	for i := 0; i < e.o.N(1500, 30000); i++ {
 		b := e.rnd.Bytes(e.rnd.Intn(14))
 		if len(b) > 0 && e.rnd.Chance(50) {
 			b[0] = byte(e.rnd.Intn(32))
@@ -419,7 +427,7 @@ func main() {
 	}
 	defer d.Close()
 	rnd := h.NewRand(o.Seed)
-	e := &env{o: o, r: r, d: d, rnd: rnd, targets: codecx.Targets(), byName: map[string]int{}}
+	e := &env{o: o, r: r, d: d, rnd: rnd, targets: codecx.Targets(), byName: map[string]int{}, sigSeen: map[string]int{}}
 	for i, t := range e.targets {
 		e.byName[t.Name] = i
 	}
